@@ -185,8 +185,8 @@ Q(id='C01.kalign_run', props=['C01', 'C04', 'C03'], cls='B', harness='c01_run.c'
 # =========================================================================== C07 / C08 kernels
 def _kernel_shapes(tier):
     out = []
-    rows = [1, 2] if tier == 'quick' else [1, 2, 3]
-    lbs = [2, 3] if tier == 'quick' else [2, 3, 4]
+    rows = [1] if tier == 'quick' else [1, 2]
+    lbs = [2] if tier == 'quick' else [2, 3]
     for r in rows:
         for lb in lbs:
             for sb in (0, 1):
@@ -198,7 +198,7 @@ def _kernel_shapes(tier):
 A_KFLOAT = 'penalties in [0,1000], substitution scores in [-1000,1000], boundary states -FLT_MAX or in [-1e5,1e5] (no overflow to infinity, no NaN)'
 Q(id='C07.seqseq.fwd_ref', props=['C07', 'C08'], cls='B', harness='c07_seqseq.c', entry='h_c07_fwd_ref', shapes=_kernel_shapes,
   mode='wrap', unwind=8, timeout=1500, funcs=['aln_seqseq_foward'], trusted=[TRUST_MSG],
-  assumptions=[A_FLOAT, A_KFLOAT, A_WRAP, 'bounded: rectangles of 1-2 (thorough 1-3) rows x 2-3 (thorough 2-4) columns, every start/end-of-b combination, 3 residue codes with a symbolic 3x3 matrix'],
+  assumptions=[A_FLOAT, A_KFLOAT, A_WRAP, 'bounded: rectangles of 1 (thorough 1-2) rows x 2 (thorough 2-3) columns, every start/end-of-b combination, 3 residue codes with a symbolic 3x3 matrix (2x3 rectangles take > 20 min each)'],
   native_srcs=['lib/src/tldevel.c'])
 Q(id='C07.seqseq.bwd_mirror', props=['C07', 'C08'], cls='B', harness='c07_seqseq.c', entry='h_c07_bwd_mirror', shapes=_kernel_shapes, defs=['-DKV_ENTRY_MIRROR'],
   mode='wrap', unwind=8, timeout=1500, funcs=['aln_seqseq_backward', 'aln_seqseq_foward'], trusted=[TRUST_MSG],
@@ -390,3 +390,71 @@ Q(id='C05.read_fasta', props=['C05', 'C04', 'C16'], cls='B', harness='c05_read_f
   trusted=[TRUST_MSG, 'isalpha/ispunct: CBMC C-locale models (-D__NO_CTYPE)', 'memcpy/realloc: CBMC library models',
            'R3 capacity shrink: 512-record / 512-residue growth constants replaced by 2 (contracts/msa_alloc.shrink.loops, msa_io.shrink.loops)'],
   assumptions=[A_NOFAIL, A_WRAP, 'bounded: 1-6 lines of 1-5 bytes; the first byte of each line is a concrete class representative (header marker, letter, gap symbol, blank, digit, byte 0xC3), every other byte symbolic over the non-control byte domain incl. >= 0x80; getline/FILE plumbing (read_file_stdin) not covered'])
+
+def _bpm_shapes(tier):
+    out = []
+    if tier == 'quick':
+        mn = [(1, 1), (1, 2), (2, 2), (2, 3), (3, 3), (3, 5), (4, 4)]
+    else:
+        mn = [(m, n) for m in range(1, 7) for n in range(m, m + 3)] + [(63, 63), (64, 64), (65, 65), (64, 66)]
+    for m, n in mn:
+        sig = 3 if m < 16 else 2
+        uw = max(n + 64 * ((m + 63) // 64) - m, 70) + 3
+        out.append(dict(name='m%d_n%d' % (m, n), defs=dict(KV_M=m, KV_N=n, KV_SIGMA=sig), unwind=uw))
+    return out
+Q(id='C11.bpm_block', props=['C11', 'C12'], cls='B', harness='c11_bpm_block.c', entry='h_c11_bpm_block', shapes=_bpm_shapes,
+  mode='wrap', timeout=1800, funcs=['bpm_block', 'bpm'], trusted=[TRUST_MSG],
+  assumptions=[A_WRAP, 'bounded: pattern 1-4 (thorough 1-6, 63, 64, 65) symbols, text up to pattern+2, contents symbolic over 3 (2) symbols of the 13-symbol alphabet'],
+  native_srcs=['lib/src/tldevel.c'])
+
+# =========================================================================== C16 lifecycle
+C16_SRCS = ['lib/src/msa_alloc.c', 'lib/src/msa_op.c', 'lib/src/alphabet.c', 'lib/src/task.c', 'lib/src/aln_mem.c', 'lib/src/aln_param.c']
+Q(id='C16.arr_to_msa', props=['C16', 'C05', 'C03'], cls='B', harness='c16_lifecycle.c', entry='h_c16_arr_to_msa',
+  mode='wrap', unwind=8, timeout=900, leak_check=True, object_bits=10, loops_files=['msa_alloc.shrink.loops'], shrink=True, defs=['-DKV_CAP=2', '-DKV_SEQCAP=2'],
+  funcs=['kalign_arr_to_msa', 'detect_alphabet', 'detect_aligned', 'set_sip_nsip', 'kalign_free_msa'],
+  srcs=C16_SRCS, native_srcs=['lib/src/tldevel.c'] + C16_SRCS,
+  trusted=[TRUST_MSG, A_LOG], assumptions=[A_NOFAIL, A_WRAP, 'bounded: 2 sequences of 2 and 3 letters; array-API precondition: residues are ASCII letters',
+                                          'native replay runs under ASan, whose malloc fills fresh memory with 0xbe: an uninitialised name shows as an unterminated string'])
+Q(id='C16.alloc_pairs', props=['C16', 'C05'], cls='B', harness='c16_lifecycle.c', entry='h_c16_alloc_pairs',
+  mode='wrap', unwind=8, timeout=900, leak_check=True, object_bits=10, loops_files=['msa_alloc.shrink.loops'], shrink=True, defs=['-DKV_CAP=2', '-DKV_SEQCAP=2', '-DKV_ENTRY_PAIRS'],
+  funcs=['alloc_msa', 'resize_msa', 'kalign_free_msa', 'alloc_msa_seq', 'free_msa_seq', 'alloc_tasks', 'free_tasks', 'alloc_aln_mem', 'resize_aln_mem', 'free_aln_mem', 'aln_param_init', 'aln_param_free'],
+  srcs=C16_SRCS, native_srcs=['lib/src/tldevel.c'] + C16_SRCS,
+  trusted=[TRUST_MSG, 'realloc: byte-copy stub (contracts/stubs_realloc.h)', 'R3 capacity shrink of msa_alloc.c'],
+  assumptions=[A_NOFAIL, A_WRAP, 'concrete tiny shapes; allocation failure paths not explored'])
+PROPS['C16'] = dict(
+    level='other',
+    level_text=('static facts: the complete list of objects with static storage in lib/src and src is the expected constant tables, no random numbers are drawn by library code reachable from the API, '
+                'the OpenMP thread count is set on every call; bounded contract checks with CBMC memory-leak detection on every constructor/destructor pair and on the readers (everything allocated is freed, '
+                'every field later read is initialised: an uninitialised field is nondeterministic heap content to the verifier and fails the post-condition)'),
+    level_note='history independence itself (call k in a long history == call k alone) is a meta-argument from "no persistent state + initialising constructors"; allocation-failure paths not explored; OpenMP runtime excluded',
+    technique=T_CB + ' (harness-enforced) with --memory-leak-check on concrete shapes; static facts on static storage / RNG use',
+    explanation=EXPL_COMMON,
+    assumptions=['meta-argument: no persistent mutable state + constructors initialise every field read later => each call is a function of its arguments'])
+
+# =========================================================================== C04 msa-level operations
+def _merge_shapes(tier):
+    s = [(1, 2), (2, 1), (1, 1), (2, 3)] if tier == 'quick' else [(a, b) for a in range(1, 5) for b in range(1, 5)]
+    return [dict(name='nd%d_ns%d' % (a, b), defs=dict(KV_ND=a, KV_NSRC=b)) for a, b in s]
+MSAOPS_SRCS = ['lib/src/msa_alloc.c', 'lib/src/msa_op.c', 'lib/src/alphabet.c']
+Q(id='C04.merge_msa', props=['C04', 'C05', 'C16'], cls='B', harness='c04_msa_ops.c', entry='h_c04_merge', shapes=_merge_shapes,
+  mode='wrap', unwind=14, timeout=900, leak_check=True, object_bits=10, loops_files=['msa_alloc.shrink.loops'], shrink=True, defs=['-DKV_CAP=2', '-DKV_SEQCAP=2'],
+  funcs=['merge_msa', 'resize_msa', 'detect_alphabet', 'detect_aligned', 'set_sip_nsip', 'kalign_free_msa', 'free_msa_seq'],
+  srcs=MSAOPS_SRCS, native_srcs=['lib/src/tldevel.c'] + MSAOPS_SRCS,
+  trusted=[TRUST_MSG, A_LOG, 'realloc: byte-copy stub', 'R3 capacity shrink of msa_alloc.c (record table grows in steps of 2 instead of 512)'],
+  assumptions=[A_NOFAIL, A_WRAP, 'bounded: 1-2 (thorough 1-4) records in dest, 1-3 (1-4) in src'])
+def _detect_shapes(tier):
+    s = [(2, 1), (1, 1), (2, 2, 1)] if tier == 'quick' else [(2, 1), (1, 1), (2, 2, 1), (3, 3), (1, 2, 3), (0, 2)]
+    return [dict(name='lens' + ''.join(map(str, t)), defs=dict(KV_LENS='{' + ','.join(map(str, t)) + '}')) for t in s]
+Q(id='C04.detect_dealign', props=['C04', 'C01', 'C17'], cls='B', harness='c04_msa_ops.c', entry='h_c04_detect_dealign', shapes=_detect_shapes,
+  mode='wrap', unwind=8, timeout=900, defs=['-DKV_ENTRY_DETECT', '-DKV_CAP=2', '-DKV_SEQCAP=2'],
+  funcs=['detect_aligned', 'dealign_msa'], srcs=MSAOPS_SRCS, native_srcs=['lib/src/tldevel.c'] + MSAOPS_SRCS,
+  trusted=[TRUST_MSG, A_LOG], assumptions=[A_NOFAIL, A_WRAP, 'bounded: 2-3 sequences of 0-3 residues, gap counts 0..3 symbolic'])
+PROPS['C04'] = dict(
+    level='other',
+    level_text=('bounded contract checks of the functions that make the result independent of presentation: read_fasta (records = letters of the sequence lines, gap symbols only counted), merge_msa (several inputs = concatenation), '
+                'detect_aligned / dealign_msa and the kalign_run protocol (whatever gaps and status the reader delivered, every gap count is zero when tree building and alignment start), '
+                'detect_alphabet (non-letters do not take part in the DNA/protein decision)'),
+    level_note='read_msf / read_clu / detect_alignment_format / stdin plumbing are not under a finished contract; the two-presentation relational statement follows by composition (equal reader output => same kalign_run input), not machine-checked',
+    technique=T_CB + ' (harness-enforced), bounded unwinding on capacity-shrunk copies, native replay',
+    explanation=EXPL_COMMON,
+    assumptions=['composition: equal msa after reading => equal result (kalign_run is a function of the msa, see C16)'])
